@@ -450,6 +450,43 @@ func runCheck(prop, tier, repo string, verbose bool, only string, timeout int) i
 		}
 		obls = append(obls, vo...)
 	}
+	// contradiction probes: a vacuity canary with goal `false` misses contradictions that need the goal's terms as
+	// triggers, so for one invariant-preservation obligation per loop and one postcondition per return the negated
+	// goal is tried as well: if both the goal and its negation follow from the assumptions, they are contradictory
+	{
+		picked := map[string]*Obligation{}
+		var order []string
+		for _, o := range obls {
+			if o.Canary || o.Static != nil || o.Goal.IsTrue() || o.Goal.IsFalse() {
+				continue
+			}
+			key := ""
+			if o.Kind == "inv-step" {
+				if k := strings.Index(o.Name, "/inv-step#"); k >= 0 {
+					key = o.Name[:k] + "|" + o.Mode
+				}
+			} else if o.Kind == "post" {
+				if k := strings.LastIndex(o.Name, "@ret"); k >= 0 {
+					key = o.Func + "|" + o.Name[k:] + "|" + o.Mode
+				}
+			}
+			if key == "" {
+				continue
+			}
+			if _, ok := picked[key]; !ok {
+				order = append(order, key)
+			}
+			if o.Kind == "inv-step" || picked[key] == nil {
+				picked[key] = o // last inv-step of a loop, first postcondition of a return
+			}
+		}
+		for _, key := range order {
+			o := picked[key]
+			obls = append(obls, &Obligation{Name: o.Name + "/noncontradiction", Prop: o.Prop, Func: o.Func, Kind: "canary", Mode: o.Mode,
+				Assumes: o.Assumes, Goal: Not(o.Goal), Canary: true, Reveal: o.Reveal, Lemmas: o.Lemmas, Probe: true,
+				Note: "probe: the negation of a discharged goal must not be provable too"})
+		}
+	}
 	tGen := time.Since(t0) - tLoad
 	to := 10
 	all := false
@@ -481,6 +518,9 @@ func runCheck(prop, tier, repo string, verbose bool, only string, timeout int) i
 				grp = o.Func + "|" + o.Mode + "|" + o.Name[:k+e]
 			}
 			if strings.Contains(o.Name, "/loop#") {
+				grp = o.Name
+			}
+			if o.Probe {
 				grp = o.Name
 			}
 			if _, ok := canGroups[grp]; !ok {
